@@ -267,6 +267,57 @@ fn big_poly_case(src: &mut Src, ctx: &mut Ctx) -> Result<(), String> {
 }
 
 // ---- Manhattan paths -----------------------------------------------------------------------------
+
+// ---- polygons with large coordinates: points next to long slanted edges -------------------------------------
+/// Triangles and convex quadrilaterals with coordinates up to about 2^30 (layouts in fine units reach
+/// that), queried at the lattice points nearest to their edges, where an inexact cross product
+/// would flip the answer. Convex by construction (vertices sorted by angle around an interior point).
+fn large_poly_case(src: &mut Src, ctx: &mut Ctx) -> Result<(), String> {
+    let n = src.usize_in(3, 4);
+    let big = 1i64 << src.i64_in(20, 30);
+    let c = (src.signed(big), src.signed(big));
+    // points on a large ellipse around c, in angular order: convex
+    let mut angs: Vec<f64> = (0..n).map(|k| (k as f64 + src.below(1000) as f64 / 1200.0) * std::f64::consts::TAU / n as f64).collect();
+    angs.sort_by(|a, b| a.partial_cmp(b).unwrap());
+    let (rx, ry) = (src.i64_in(big / 4, big) as f64, src.i64_in(big / 4, big) as f64);
+    let mut v: Vec<P> = angs.iter().map(|a| (c.0 + (rx * a.cos()) as i64, c.1 + (ry * a.sin()) as i64)).collect();
+    if src.bool() {
+        v.reverse();
+    }
+    let r = src.index(v.len());
+    v.rotate_left(r);
+    if !G::is_simple(&v) {
+        ctx.excluded("generated polygon not simple (construction fallback)");
+        return Ok(());
+    }
+    ctx.nontrivial(hash_of(&v));
+    ctx.label(&format!("large polygon, coordinates up to 2^{}", 64 - (big as u64).leading_zeros() - 1));
+    ctx.sample("large polygon", || format!("{:?}", v));
+    let pg = poly(&v);
+    let ys: Vec<i64> = v.iter().map(|p| p.1).collect();
+    let mut qs: Vec<P> = vec![];
+    for i in 0..v.len() {
+        let (a, b) = (v[i], v[(i + 1) % v.len()]);
+        for _ in 0..6 {
+            // a lattice point near the edge: a + t (b - a), rounded, and its eight neighbours
+            let t = src.below(1 << 20) as i128;
+            let m = ((a.0 as i128 + (b.0 - a.0) as i128 * t / (1 << 20)) as i64, (a.1 as i128 + (b.1 - a.1) as i128 * t / (1 << 20)) as i64);
+            for dx in -1..=1 {
+                for dy in -1..=1 {
+                    qs.push((m.0 + dx, m.1 + dy));
+                }
+            }
+        }
+        qs.push(a);
+        qs.push((a.0 + 1, a.1));
+        qs.push((a.0, a.1 - 1));
+    }
+    ctx.extra_evals(qs.len() as u64);
+    for q in qs {
+        check_polygon_point(&pg, &v, q, &ys, ctx)?;
+    }
+    Ok(())
+}
 pub fn gen_path(src: &mut Src) -> (Vec<P>, i64) {
     let n = src.usize_in(2, 8);
     let mut p = (src.signed(20), src.signed(20));
@@ -358,6 +409,7 @@ fn run(run: &mut Run) {
         run.enumerate("polygons-4x4-len5", 16u64.pow(5), &small_poly_case(4, 5));
     }
     run.explore("polygons-random", run.tier.pick(100_000, 1_000_000), 200, &big_poly_case);
+    run.explore("polygons-large-coordinates", run.tier.pick(60_000, 600_000), 60, &large_poly_case);
     run.explore("paths", run.tier.pick(100_000, 800_000), 60, &path_case);
 }
 fn case(sub: &str) -> Option<Box<CaseFn<'static>>> {
@@ -370,6 +422,7 @@ fn case(sub: &str) -> Option<Box<CaseFn<'static>>> {
         "polygons-4x4-len5" => Some(Box::new(small_poly_case(4, 5))),
         "polygons-random" => Some(Box::new(big_poly_case)),
         "paths" => Some(Box::new(path_case)),
+        "polygons-large-coordinates" => Some(Box::new(large_poly_case)),
         _ => None,
     }
 }
